@@ -370,7 +370,39 @@ def rule_nameiter(text, arg):
     raise TransplantError("R16: loop `%s` not found" % arg)
 
 
+def rule_patclosure(text, arg):
+    """R17: the (single) closure with a tuple-pattern parameter `|(a, b)| BODY` becomes
+       `|p: T| -> (o: U) <spec> { let (a, b) = p; BODY }`; arg = 'T -> (o: U) <spec>'.  BODY is untouched."""
+    toks = _tok(text)
+    hits = [j for j in range(len(toks) - 1) if toks[j].text == "|" and toks[j + 1].text == "("]
+    if len(hits) != 1:
+        raise TransplantError("R17: expected exactly one closure with a tuple-pattern parameter, found %d" % len(hits))
+    j = hits[0]
+    close = rs.match_close(toks, j + 1)
+    if toks[close + 1].text != "|":
+        raise TransplantError("R17: unexpected closure head")
+    pat = text[toks[j + 1].start:toks[close].end]
+    # body: up to the `)` closing the call the closure is an argument of
+    depth, k = 0, close + 2
+    while k < len(toks):
+        t = toks[k]
+        if t.text in "([{":
+            depth += 1
+        elif t.text in ")]}":
+            if depth == 0:
+                break
+            depth -= 1
+        elif t.text == "," and depth == 0:
+            break
+        k += 1
+    body = text[toks[close + 2].start:toks[k - 1].end]
+    ty, _, spec = arg.partition("->")
+    new = "|p: %s| ->%s { let %s = p; %s }" % (ty.strip(), spec, pat, body)
+    return _splice(text, [(toks[j].start, toks[k - 1].end, new)]), 1, "closure parameter pattern %s bound by `let`, in-place spec added" % pat
+
+
 RULES = {
+    "R17": rule_patclosure,
     "R16": rule_nameiter,
     "R15": rule_bracearm,
     "R12": rule_mutparam, "R14": rule_retname, "R3": rule_fnptr, "R6": rule_charmax, "R5": rule_asserteq,
@@ -483,6 +515,13 @@ def expand(template_text, repo_root, read=None):
             continue
         path = attrs["file"]
         src = read("%s/%s" % (repo_root, path))
+        if "presubst" in attrs:
+            # Q1: the item lives inside a quote! template; an interpolation (`#ident`) is replaced by a fixed identifier so that the
+            # template text is plain Rust.  Nothing else of the file is touched.
+            old, new = attrs["presubst"].split("=>")
+            if src.count(old) == 0:
+                raise TransplantError("%s: interpolation `%s` not found" % (path, old))
+            src = src.replace(old, new)
         try:
             item = rs.find_item(src, kw, name, impl=attrs.get("impl"), nth=int(attrs["nth"]) if "nth" in attrs else None)
         except rs.ScanError as e:
